@@ -615,7 +615,7 @@ def families(tier):
       core.Family(
           'optimize', check,
           strategy=strategy_quick if tier == 'quick' else strategy_thorough,
-          budget={'quick': 144, 'thorough': 2400},
+          budget={'quick': 144, 'thorough': 1600},
           shards={'quick': 16, 'thorough': 32},
           required_classes=(
               'strategy_eagle', 'strategy_random', 'padded_dims',
